@@ -10,7 +10,8 @@ from simcore import seams
 from engines import dimwise_sim as DS
 from engines import extendsplit_sim as ES
 
-FAULTS = ["continue", "save_continue", "save_crash_restore", "save_torn", "save_short", "save_enospc", "save_lost", "two_stage", "child_restore"]
+FAULTS = ["continue", "save_continue", "save_crash_restore", "save_torn", "save_short", "save_enospc", "save_lost", "two_stage", "child_restore",
+          "container_restart"]
 
 
 def snapshot_of(sa, strategy, ret):
@@ -83,14 +84,16 @@ def query_sequence(inst, P, interp, clone=True):
     return out
 
 
-def compare(ctx, sig, twin, got, what):
+def compare(ctx, sig, twin, got, what, skip=()):
     for key in ("structure", "scheme", "lmax", "npoints", "distinct_evals"):
+        if key in skip:
+            continue
         if twin[key] != got[key]:
             ctx.violate("resume_" + key, sig, "%s: final %s differs from the uninterrupted run: %s vs %s" % (
                 what, key, json.dumps(got[key])[:300], json.dumps(twin[key])[:300]))
     x, y = np.array(got["result"]), np.array(twin["result"])
     tol = 1e-11 * (1.0 + float(np.max(np.abs(y)))) * max(8, len(twin["scheme"]))
-    if x.shape != y.shape or not np.all(np.abs(x - y) <= tol):
+    if "result" not in skip and (x.shape != y.shape or not np.all(np.abs(x - y) <= tol)):
         ctx.violate("resume_result", sig, "%s: final result %s, uninterrupted run %s (tol %.1e)" % (what, x.tolist(), y.tolist(), tol))
     ctx.ok("resume_equals_twin")
 
@@ -188,10 +191,13 @@ class C14(Check):
         sim.build()
         return sim
 
-    def run_to(self, sim, limit, first=True):
+    def run_to(self, sim, limit, first=True, reevaluate=False, container=None):
         try:
+            if container is not None:
+                # the second continuation route the API documents: a new driver call that is handed the old container
+                return sim.perform(tol=-1.0, max_evaluations=limit, refinement_container=container)
             if first:
-                return sim.perform(tol=-1.0, max_evaluations=limit)
+                return sim.perform(tol=-1.0, max_evaluations=limit, reevaluate_at_end=reevaluate)
             return sim.cont(tol=-1.0, max_evaluations=limit)
         except DS.StopRun:
             raise Excluded("no stop within the evaluation cap")
@@ -275,6 +281,8 @@ class C14(Check):
         if "only_k" in cfg:
             ks = [k for k in ks if k == cfg["only_k"]]
         kinds = [f for f, w in cfg["fault_weights"].items() for _ in range(w)]
+        if os.environ.get("VERIF_C14_ONLY_FAULT"):      # focused soak of one fault kind (debugging knob, not used by the registered commands)
+            kinds = [os.environ["VERIF_C14_ONLY_FAULT"]]
         for k in ks:
             kind = kinds[int(H(rk, "fault", k) * len(kinds)) % len(kinds)]
             self.one_crash_point(cfg, rk, ctx, st, twin, N, k, kind, final)
@@ -284,8 +292,22 @@ class C14(Check):
         ctx.probe("crash_point")
         ctx.step()
         sim = self.make(cfg, rk, ctx)
+        if kind == "container_restart":
+            ctx.exc_sig = dict(ctx.exc_sig or {}, fault=kind, version=cfg.get("version"), estimator=cfg["estimator"])     # an exception on this route carries the route in its signature
         stop_lim = N[k] - 1 if k > 0 else 0
-        r1 = self.run_to(sim, stop_lim)
+        # a quarter of the first legs ask for the re-evaluation at the end: the stop is then a from-scratch evaluation, and the
+        # continuation starts from whatever bookkeeping that leaves behind
+        reeval = H(rk, "reeval_first_leg", k) < 0.25
+        r1 = self.run_to(sim, stop_lim, reevaluate=reeval)
+        if reeval:
+            sig["first_leg_reevaluated"] = True
+            ctx.fault("reevaluate_at_end")
+            if len(sim.sa.operation.f.seen) != N[k]:
+                # the from-scratch evaluation touched points the incremental one never used (observed: extend-split coarsening
+                # version 2): the point count, which the limits are expressed in, has moved, so the uninterrupted twin is no
+                # reference for this continuation (the statement is about stop / continue, not about re-evaluation)
+                ctx.probe("reevaluation_evaluated_further_points")
+                return
         ctx.fault("stop@k")
         ctx.ev("crash_point", k, kind, [int(x) for x in r1[6]])
         what = "crash point %d (%s)" % (k, kind)
@@ -300,8 +322,15 @@ class C14(Check):
         # version 2), which moves the point count and hence the stop of the continued run - the statement is about
         # stop / save / restore / continue, not about queries in between
         call = lambda inst: query_sequence(inst, P, interp, clone=False)
+        container = None
         if kind == "continue":
             pass
+        elif kind == "container_restart":
+            container = r1[0]
+            ctx.fault("container_restart")
+            # this route re-initialises every area and evaluates it again, which loses what the areas remembered about their
+            # history: the signature carries the configuration classes in which that matters (known findings)
+            sig.update(automatic=bool(cfg.get("automatic", False)), version=cfg.get("version"))
         elif kind == "two_stage":
             mid = (stop_lim + final) // 2
             self.run_to(sim, mid, first=False)
@@ -381,9 +410,17 @@ class C14(Check):
                     if outcome == "returned_object":
                         ctx.violate("failed_restore_is_loud", sig, "%s: restoring an incomplete file (%s) returned an object" % (what, fired))
                     ctx.probe("incomplete_file_" + outcome)
-        ret = self.run_to(sim, final, first=False)
+        ret = self.run_to(sim, final, first=False, container=container)
         got = snapshot_of(sim.sa, st, ret)
-        compare(ctx, sig, twin, got, what)
+        skip = ()
+        if reeval and got["distinct_evals"] != int(ret[6][-1]):
+            # the object remembers reevaluate_at_end, so the continuation re-evaluates at its end too; where that from-scratch
+            # evaluation touches further points (extend-split version 2) the final counts are those of the re-evaluation,
+            # (and the value that of a re-evaluation on further points), not of the refinement history - structure, scheme
+            # and maximum levels are still compared
+            skip = ("npoints", "distinct_evals", "result")
+            ctx.probe("reevaluation_evaluated_further_points")
+        compare(ctx, sig, twin, got, what, skip=skip)
         ctx.state((st, k, kind, json.dumps(got["structure"])[:2000]))
 
     def child(self, cfg, rk, data, final, st, interp=True):
